@@ -9,7 +9,8 @@ import oracle
 from common import ModelRun, model_classes, cx, pipeline_guard, crash_result
 from drive import Result
 
-RULE = ("Hypothesis generates lattices (1-5 sites, 1-3 orbitals, 1-3 spins, arbitrary labels, up to 12 modes), an ordering mode "
+RULE = ("Hypothesis generates lattices (1-5 sites, 1-3 orbitals, 1-3 spins, arbitrary labels, up to 12 modes; a quarter with up to 9 orbitals and "
+        "spin multiplicity up to 6 per site, up to 60 modes, bookkeeping only), an ordering mode "
         "(site-major / spin-major), a set of non-existent (label, orbital, spin) triples, and for lattices with <=5 modes (quick; <=6 "
         "thorough) a Hamiltonian, an injective relabelling of the sites and a second ordering mode.  Bookkeeping: the forward map over all "
         "valid triples is exactly {0..N-1}, getInfo/getIndex are mutual inverses, getIndexSize = sum orbitals*spins, a non-existent triple "
@@ -21,21 +22,24 @@ CONFIG = {
     "quick": {"flavours": ["real", "complex"], "shards": 8, "examples": 500, "min_nontrivial": 200, "budget_s": 120},
     "thorough": {"flavours": ["real", "complex"], "shards": 16, "examples": 2500, "min_nontrivial": 5000, "budget_s": 3000},
 }
-REQUIRED_CLASSES = {"quick": ["spin-major", "heterogeneous-spins", "label-order!=insertion", "physics", "relabelled", "chi-container"],
-                    "thorough": ["spin-major", "heterogeneous-spins", "label-order!=insertion", "physics", "relabelled", "chi-container"]}
+REQUIRED_CLASSES = {"quick": ["spin-major", "heterogeneous-spins", "label-order!=insertion", "physics", "relabelled", "chi-container", ">=4-orbitals", ">=4-spins"],
+                    "thorough": ["spin-major", "heterogeneous-spins", "label-order!=insertion", "physics", "relabelled", "chi-container", ">=4-orbitals", ">=4-spins"]}
 
 
 @st.composite
 def strategy_(draw, tier):
-    big = draw(st.booleans())
+    big = draw(st.sampled_from([0, 1, 1, 2]))
     pm = 5 if tier == "quick" else 6
-    if big:
+    if big == 2:
+        # shapes beyond what full ED can follow (d and f shells, high spins): bookkeeping only
+        sites = draw(gen.sites_st(max_modes=60, max_sites=4, spins=(1, 2, 2, 3, 4, 6), orbitals=(1, 2, 3, 4, 5, 7, 8, 9)))
+    elif big:
         sites = draw(gen.sites_st(max_modes=12, max_sites=5))
     else:
         sites = draw(gen.sites_st(max_modes=pm, max_sites=4))
     mode = draw(st.integers(0, 1))
     labs = [s[0] for s in sites]
-    bogus = draw(st.lists(st.tuples(st.sampled_from(labs + ["nope", "A "]), st.integers(0, 4), st.integers(0, 4)), min_size=1, max_size=4))
+    bogus = draw(st.lists(st.tuples(st.sampled_from(labs + ["nope", "A "]), st.integers(0, 10), st.integers(0, 7)), min_size=1, max_size=4))
     case = {"sites": sites, "mode": mode, "bogus": [list(b) for b in bogus]}
     if M.n_modes(sites) <= pm:
         cplx = draw(st.booleans())
@@ -111,6 +115,10 @@ def execute(case, ctx):
         classes.append("heterogeneous-spins")
     if len({s[1] for s in sites}) > 1:
         classes.append("heterogeneous-orbitals")
+    if any(s_[1] >= 4 for s_ in sites):
+        classes.append(">=4-orbitals")
+    if any(s_[2] >= 4 for s_ in sites):
+        classes.append(">=4-spins")
     labs = [s[0] for s in sites]
     if labs != sorted(labs, key=lambda x: x.encode()):
         classes.append("label-order!=insertion")
